@@ -5,6 +5,7 @@ zipper / lens broadcasting; as_list / as_tuple idempotent normalisers; waiter in
 """
 import asyncio
 import copy
+import functools
 import itertools
 import json
 
@@ -13,20 +14,24 @@ from hypothesis import strategies as st
 from pv.core import Sub, EnumSub, Violation, call, call_or, must_raise, check, short
 
 ASSUMPTIONS = [
-    'containers are list / tuple / dict / Dict / dictattr with string keys or numeric keys that sort (small integers, integers beyond 2**53, integers next to one float) - what loop(list, tuple, dict) lifts over, depth <= 4, container sizes 0-3; "same shape" includes the key order of dicts',
+    'containers are list / tuple / dict / Dict / dictattr with string keys (the empty string among them) or numeric keys that sort (small integers including 0, integers beyond 2**53, integers next to one float) - what loop(list, tuple, dict) lifts over, depth <= 4, container sizes 0-3; "same shape" includes the key order of dicts',
     'a companion dict whose numeric keys are EQUAL to the keys of the looped dict but of another numeric type (2.0 or numpy.int64(2) for 2) has the same keys (python dict semantics: they address the same entries) and is matched by key',
     'strings of any length are scalars (broadcast whole, never matched character by character) - the text helpers rely on it (sep = ", ")',
     'different-shape companions are flat lists of 0-5 scalars (matched wherever a list / tuple of exactly that length sits, broadcast elsewhere), or dicts with scalar values over foreign keys or over any subset of the key alphabet (matched where the key sets coincide, broadcast elsewhere): the documented '
     '"re-match deeper" rule of _item_by_i/_item_by_key then cannot fire by accident and plain broadcasting is the only reading',
     'same-shape companions mirror the structure to depth k and are scalars below (or are the operand object itself); no companion is named "axis" (a keyword the decorator consumes)',
     'lifted functions are pure and of the shapes f(x, a=, b=), f(y, a=, b=), f(x, *, a=, b=), f(x, *rest), f(x, **kw), f(*a, **kw); a function without a named first parameter receives the structure positionally (there is no name to pass it by)',
+    'a lifted functools.partial(f(x, a=, b=), b=value): the bound value belongs to the function, it is not a "further argument" of the call - every leaf receives it whole (also a list as long as the data) unless the caller passes b, which python allows by keyword only',
+    'a declared default that the caller passes explicitly IS a further argument (a container default is then matched element by element / by key where it fits); scalar companions and elements of flat companions may be falsy (0, "", False, 0.0, None)',
+    'library functions with optional arguments left out (replace without new, split without dedup / without sep and dedup) are judged by the documented defaults new=None, sep=" ", dedup=False',
     'replace(): `old` is a string of 1-2 characters or a list / tuple of 1-5 single characters, none contained in `new` (a list as long as a list / tuple of the structure is matched element by element there, like any companion); split(): `sep` is a non-empty string of 1-2 characters or a list / tuple of 1-3 single characters; '
     'the python-string-method anchor is applied where old / sep are single characters broadcast whole, the leaf-by-leaf lifting law everywhere',
     'as_tuple idempotence is claimed on values whose elements are not lists: as_tuple(([[3]],)) unwraps one level per call by design of the *args idiom',
     'zipper arguments: scalars, strings (scalars to zipper), lists / tuples / ranges / 1-d numpy arrays; no dicts/sets; lens is called when every argument is a sequence',
     'waiter: awaitables are asyncio futures (possibly the same future object at several places)  or coroutines awaiting one; the harness resolves futures in the generated order with sleep(0) between; '
     'a second waiter call on the same structure is made only when it holds no coroutine objects (python forbids awaiting those twice)',
-    'sessions (several calls on the same objects) judge every call by the ORIGINAL content of the operands: the statement maps "the original leaves", a callee that edits its arguments breaks the later calls',
+    'sessions (several calls on the same objects) judge every call by the ORIGINAL content of the operands: the statement maps "the original leaves", a callee that edits its arguments breaks the later calls; '
+    'between two calls the harness itself may write ONE leaf cell of a list / dict of the operand (or of a flat list / dict companion) in place - shapes unchanged - and the later calls are judged by that current content (an answer remembered per object would be stale); not done where one container object sits at two places',
 ]
 
 _leaf = st.one_of(st.integers(0, 9), st.sampled_from(['p', 'q', 'Rs', ' t ']), st.none(), st.sampled_from([0.5, 1.25]))
@@ -34,6 +39,7 @@ _KEYS = ['a', 'b', 'c']
 _BIG_KEYS = [2 ** 53, 2 ** 53 + 1, 7]
 _MIXED_KEYS = [0.5, 2 ** 53 + 1, -3]
 _CTAGS = ['list', 'tuple', 'dict', 'Dict', 'dictattr']
+_FALSY_KEYS = {json.dumps(_KEYS): ['a', '', 'c'], json.dumps([2, 10, 5]): [0, 10, 5], json.dumps([-1, 10, 3]): [-1, 0, 3]}
 
 
 def _node(children):
@@ -59,7 +65,11 @@ def _tree(draw, d, leaf=None):
         return [t, kids]
     # integer keys whose numeric order differs from their string order (2 < 10 but '10' < '2') in a share of the dicts
     # ... and, in a smaller share, numeric keys a vectorised sort would mangle: integers beyond 2**53, integers next to a float
-    keys = draw(st.permutations(draw(st.sampled_from([_KEYS, _KEYS, _KEYS, _KEYS, [2, 10, 5], [-1, 10, 3], _BIG_KEYS, _MIXED_KEYS]))))[:n]
+    base = draw(st.sampled_from([_KEYS, _KEYS, _KEYS, _KEYS, [2, 10, 5], [-1, 10, 3], _BIG_KEYS, _MIXED_KEYS]))
+    # ... and in a fifth of the string / small-integer alphabets one key is falsy ('' or 0): still strings / small integers that sort
+    if draw(st.sampled_from([True, False, False, False, False])):
+        base = _FALSY_KEYS.get(json.dumps(base), base)
+    keys = draw(st.permutations(base))[:n]
     return [t, [[k, v] for k, v in zip(keys, kids)]]
 
 
@@ -174,6 +184,8 @@ def _long_structure(draw):
 
 
 _SCALAR_COMPS = [100, 'S', None, 'pq', 'xyz']       # strings of length 2-3: as long as the sequences of the structure, still scalars
+_FALSY_COMPS = [0, '', False, 0.0]                  # falsy scalars that are not None: a companion like any other
+_FALSY_ELEMENTS = [0, '', False, None]              # ... and as elements of a flat companion
 
 
 @st.composite
@@ -183,6 +195,8 @@ def _comp(draw, d, j, lens=()):
     if kind == 'scalar':
         # ... in a share of the cases a string exactly as long as some list / tuple of the structure
         c = ['leaf', draw(st.sampled_from(_SCALAR_COMPS + [v for v in ('pq', 'xyz') if len(v) in lens] * 3))]
+        if draw(st.sampled_from([True] + [False] * 5)):
+            c = ['leaf', draw(st.sampled_from(_FALSY_COMPS))]       # ... in a sixth of them a falsy scalar that is not None
     elif kind == 'same':
         # the full mirror (numeric dict keys as they are, or the same numbers as float / numpy.int64), or the operand OBJECT itself
         c = draw(st.sampled_from([['mirror', d, j], ['mirror', d, j], ['mirror', d, j, 'float'], ['mirror', d, j, 'np'], ['self']]))
@@ -190,19 +204,32 @@ def _comp(draw, d, j, lens=()):
         c = ['mirror', draw(st.integers(0, max(d - 1, 0))), j] + draw(st.sampled_from([[], [], ['float'], ['np']]))
     elif kind == 'flat_list':
         # any length: where it equals the length of a list / tuple of the structure it is matched there, everywhere else (length 0, 1, ...) broadcast whole
-        c = [draw(st.sampled_from(['list', 'tuple'])), [['leaf', v] for v in (lambda k: draw(st.lists(st.integers(50, 59), min_size=k, max_size=k)))(draw(st.sampled_from([0, 1, 1, 1, 2, 3, 4, 5])))]]
+        # (a quarter of the elements are falsy - 0, '', False, None -: elements like any other)
+        c = [draw(st.sampled_from(['list', 'tuple'])), [['leaf', v] for v in (lambda k: draw(st.lists(st.one_of(st.integers(50, 59), st.integers(50, 59), st.integers(50, 59), st.sampled_from(_FALSY_ELEMENTS)), min_size=k, max_size=k)))(draw(st.sampled_from([0, 1, 1, 1, 2, 3, 4, 5])))]]
     elif kind == 'overlap_dict':
         # any key set over the structure's key alphabet plus a foreign key, scalar values: where it equals a dict's key set it is matched by key,
         # everywhere else (e.g. same size, partly overlapping keys) it must be broadcast whole
         c = [draw(st.sampled_from(['dict', 'Dict'])), [[k, ['leaf', 'o%i:%s' % (j, k)]] for k in draw(st.lists(st.sampled_from(_KEYS + ['x']), min_size=1, max_size=3, unique=True))]]
     else:
         c = ['dict', [[k, ['leaf', draw(st.integers(70, 79))]] for k in draw(st.lists(st.sampled_from(['x', 'y', 'z']), min_size=1, max_size=2, unique=True))]]
+    if draw(st.sampled_from([True] + [False] * 11)):
+        # the default the lifted function itself declares for this parameter, passed explicitly: then it is a companion like any other (a container default is matched where its length / keys fit)
+        kind, c = 'own_default', ['own_default']
     return dict(kind=kind, spec=c)
 
 
 # shapes of the lifted function: what each allows for the companions (pos / kw) and for the first argument (by keyword or not)
-_SHAPES = ['std', 'std', 'std', 'std', 'std', 'y_first', 'kwonly', 'rest', 'kwargs', 'star']
+# 'partial' = functools.partial(f(x, a=, b=), b=<bound value>): a callable that carries an option of its own
+_SHAPES = ['std', 'std', 'std', 'std', 'partial', 'y_first', 'kwonly', 'rest', 'kwargs', 'star']
 _DEFAULTS = {'scalars': ('dA', 'dB'), 'containers': (('t0', 't1'), ['l0', 'l1', 'l2']), 'containers2': ({'a': 'A', 'b': 'B'}, ('u0',))}
+# what the partial binds b to: a string, or a container as long as parts of the data may be (it belongs to the function: every leaf receives it whole unless the caller passes b)
+_PARTIAL_BOUND = {'scalars': 'pB', 'containers': ['p0', 'p1'], 'containers2': ('q0', 'q1', 'q2')}
+
+
+def _effective_defaults(shape, defaults):
+    """(value of a, value of b) a leaf receives when the caller passes neither"""
+    da, db = _DEFAULTS[defaults]
+    return (da, _PARTIAL_BOUND[defaults]) if shape == 'partial' else (da, db)
 
 
 def _fix_hows(shape, hows, first_kw):
@@ -218,6 +245,8 @@ def _fix_hows(shape, hows, first_kw):
     # positional companions must precede: a positional second companion requires a positional first one
     if len(hows) == 2 and hows[0] == 'kw' and hows[1] == 'pos':
         hows = ['pos', 'pos']
+    if shape == 'partial' and len(hows) == 2:
+        hows = [hows[0], 'kw']                    # b is bound by keyword in the partial: python lets the caller override it by keyword only
     return hows, first_kw
 
 
@@ -248,17 +277,32 @@ def _lift_case(draw):
     first_kw = draw(st.sampled_from([False, False, False, False, False, True]))
     shape = draw(st.sampled_from(_SHAPES))
     # the defaults the lifted function declares for a and b: strings, or containers as long as / keyed like parts of the structure may be
-    defaults = draw(st.sampled_from(['scalars', 'scalars', 'containers', 'containers2']))
+    # (container defaults more often where a companion is the function's own default passed explicitly, and for the partial)
+    defaults = draw(st.sampled_from(['scalars', 'scalars', 'containers', 'containers2'] + (['containers', 'containers2'] * 2 if shape == 'partial' or any(c['kind'] == 'own_default' for c in comps) else [])))
+    if shape == 'partial' and draw(st.sampled_from([True, True, True, False])):
+        # ... and for the partial mostly the set whose bound value is as long as a list / tuple of the structure, where there is one
+        defaults = 'containers' if len(_PARTIAL_BOUND['containers']) in lens else 'containers2' if len(_PARTIAL_BOUND['containers2']) in lens else defaults
     hows, first_kw = _fix_hows(shape, [c['how'] for c in comps], first_kw)
     for c, h in zip(comps, hows):
         c['how'] = h
     return dict(s=s, comps=comps, first_kw=first_kw, defaults=defaults, shape=shape, share=which == 'shared')
 
 
-def _make_leaf_fn(shape, defaults, tag='leaf'):
-    """a pure leaf function of the given shape (all of them come out of this ONE factory); the declared defaults are fresh objects for every function made"""
+def _make_leaf_fn(shape, defaults, tag='leaf', model=False):
+    """a pure leaf function of the given shape (all of them come out of this ONE factory); the declared defaults are fresh objects for every function made.
+    model=True: the reference model's own function - for 'partial' a plain closure with the bound value as its default, no functools.partial object"""
     da, db = copy.deepcopy(_DEFAULTS[defaults])
-    if shape == 'std':
+    if shape == 'partial':
+        bound = copy.deepcopy(_PARTIAL_BOUND[defaults])
+        if model:
+            def f(x, a=da, b=bound):
+                return (tag, x, a, b)
+        else:
+            def g(x, a=da, b=db):
+                return (tag, x, a, b)
+            f = functools.partial(g, b=bound)
+        sig = 'functools.partial(f(x, a=%r, b=%r), b=%r)' % (da, db, bound)
+    elif shape == 'std':
         def f(x, a=da, b=db):
             return (tag, x, a, b)
         sig = 'f(x, a=%r, b=%r)' % (da, db)
@@ -290,11 +334,12 @@ def _first_name(shape):
 
 
 def _has_defaults(shape):
-    return shape in ('std', 'y_first', 'kwonly')
+    return shape in ('std', 'y_first', 'kwonly', 'partial')
 
 
-def _build_args(s, x, comps):
-    """positional and keyword companions (and all of them in order); 'self' is the operand object x, 'twin' the first companion's object"""
+def _build_args(s, x, comps, shape='std', defaults='scalars'):
+    """positional and keyword companions (and all of them in order); 'self' is the operand object x, 'twin' the first companion's object,
+    'own_default' an equal copy of what a function of this shape / these defaults declares for the parameter (a for the first companion, b for the second)"""
     names = ['a', 'b']
     pos, kw, vals = [], {}, []
     for j, c in enumerate(comps):
@@ -303,6 +348,8 @@ def _build_args(s, x, comps):
             v = x
         elif cs[0] == 'twin':
             v = vals[0]
+        elif cs[0] == 'own_default':
+            v = copy.deepcopy(_effective_defaults(shape, defaults)[min(j, 1)])
         else:
             if cs[0] == 'mirror':
                 cs = mirror(s, cs[1], lambda path, j=cs[2]: 'm%i:%s' % (j, '.'.join(map(str, path))), cs[3] if len(cs) > 3 else None)
@@ -318,7 +365,7 @@ def _build_args(s, x, comps):
 def _struct_facts(s):
     """lengths of the lists / tuples, sorted key tuples of the dicts, container tags, longest container, integer keys?"""
     lens_seen, keys_seen, tags = set(), set(), set()
-    facts = dict(maxlen=0, int_keys=False, big_keys=False)
+    facts = dict(maxlen=0, int_keys=False, big_keys=False, falsy_key=False)
 
     def walk(s):
         if s[0] == 'leaf':
@@ -332,6 +379,8 @@ def _struct_facts(s):
             keys_seen.add(tuple(sorted(str(k) for k, _ in s[1])))
             if any(isinstance(k, int) for k, _ in s[1]):
                 facts['int_keys'] = True
+            if any(not k for k, _ in s[1]):
+                facts['falsy_key'] = True
             if any(isinstance(k, float) or (isinstance(k, int) and abs(k) >= 2 ** 53) for k, _ in s[1]):
                 facts['big_keys'] = True
         facts['maxlen'] = max(facts['maxlen'], len(kids))
@@ -353,6 +402,11 @@ def _converted_keys(s, comps):
     return False
 
 
+def _fits(dv, lens_seen, keys_seen):
+    """is the container dv as long as a list / tuple of the structure, or keyed like one of its dicts?"""
+    return (isinstance(dv, (list, tuple)) and len(dv) in lens_seen) or (isinstance(dv, dict) and tuple(sorted(dv)) in keys_seen)
+
+
 def _lift_classes(spec, pos, kw):
     """class labels of one lifted call (shared by the single-call and the session sub-check)"""
     s, comps = spec['s'], spec['comps']
@@ -366,10 +420,26 @@ def _lift_classes(spec, pos, kw):
     if _has_defaults(shape) and defaults != 'scalars':
         unfilled = [nm for i, nm in enumerate(names) if nm not in kw and i >= len(pos)]
         for nm in unfilled:
-            dv = _DEFAULTS[defaults][names.index(nm)]
-            if (isinstance(dv, (list, tuple)) and len(dv) in lens_seen) or (isinstance(dv, dict) and tuple(sorted(dv)) in keys_seen):
+            dv = _effective_defaults(shape, defaults)[names.index(nm)]
+            if _fits(dv, lens_seen, keys_seen):
                 cls.append('unfilled_container_default_shaped_like_the_data')
                 break
+    if shape == 'partial' and d >= 1:
+        cls.append('fn_is_a_partial_with_a_bound_keyword')
+        if 'b' not in kw and _fits(_PARTIAL_BOUND[defaults], lens_seen, keys_seen):
+            cls.append('partial_binds_a_container_shaped_like_the_data')
+    for j, c in enumerate(comps):
+        if c['spec'][0] == 'own_default':
+            cls.append('own_default_passed_explicitly')
+            if _has_defaults(shape) and _fits(_effective_defaults(shape, defaults)[j], lens_seen, keys_seen):
+                cls.append('own_container_default_passed_explicitly_and_matched')
+    if any(c['spec'][0] == 'leaf' and c['spec'][1] is not None and not c['spec'][1] for c in comps) or \
+       any(c['spec'][0] in ('list', 'tuple') and any(not e[1] for e in c['spec'][1]) for c in comps):
+        cls.append('falsy_companion_or_companion_element')
+        if d >= 1 and any(c['spec'][0] in ('list', 'tuple') and len(c['spec'][1]) in lens_seen and any(not e[1] for e in c['spec'][1]) for c in comps):
+            cls.append('falsy_element_of_a_matched_flat_companion')
+    if facts['falsy_key']:
+        cls.append('falsy_dict_key')
     for c, v in zip(comps, pos + [kw[n] for n in names if n in kw]):
         if c['kind'] == 'flat_list' and len(v) <= 1 and any(l != len(v) for l in lens_seen):
             cls.append('companion_of_length_0_or_1_next_to_longer_sequences')
@@ -414,7 +484,7 @@ def run_lift(spec):
     s = spec['s']
     shape, defaults = spec.get('shape', 'std'), spec.get('defaults', 'scalars')
     x = build(s, {} if spec.get('share') else None)
-    pos, kw, _ = _build_args(s, x, spec['comps'])
+    pos, kw, _ = _build_args(s, x, spec['comps'], shape, defaults)
     leaf_fn, sig = _make_leaf_fn(shape, defaults)
     lifted = loop(list, tuple, dict)(leaf_fn)
     what = _describe(sig, _first_name(shape), spec['first_kw'], x, pos, kw)
@@ -424,8 +494,8 @@ def run_lift(spec):
         res = call(what, lambda: lifted(x, *pos, **kw))
     # the model works on equal copies built from the spec, with a function of its own: the original content, whatever the call did to its arguments
     x0 = build(s)
-    pos0, kw0, _ = _build_args(s, x0, spec['comps'])
-    exp = model_lift(_make_leaf_fn(shape, defaults)[0], x0, pos0, kw0)
+    pos0, kw0, _ = _build_args(s, x0, spec['comps'], shape, defaults)
+    exp = model_lift(_make_leaf_fn(shape, defaults, model=True)[0], x0, pos0, kw0)
     check(same_shape(res, exp), '%s = %s, leaf-wise model says %s', what, res, exp)
     cls, nt = _lift_classes(spec, pos, kw)
     return dict(nt=nt, cls=cls)
@@ -460,14 +530,38 @@ def _session_case(draw):
         first_kw = draw(st.sampled_from([False, False, True])) if scenario == 'free' or i >= 2 else True
         hows, first_kw = _fix_hows(shapes[fn], [draw(st.sampled_from(['pos', 'pos', 'kw'])) for _ in use], first_kw)
         calls.append(dict(fn=fn, use=use, hows=hows, first_kw=first_kw))
+        if i >= 1 and which == 'any' and draw(st.sampled_from([True] + [False] * 7)):
+            # before this call the CALLER writes one cell of the operand (or of a list / dict companion) in place: [target, which cell, new value]; in half of these the call
+            # then repeats an earlier call exactly (same function, same argument objects passed the same way) - what a memo keyed on the objects would answer from memory
+            calls[-1]['edit'] = [draw(st.sampled_from(['x', 'x', 'x', 0, 1, 2])), draw(st.integers(0, 7)), draw(st.sampled_from(['E%i' % i, 'E%i' % i, 0, None]))]
+            if (scenario == 'free' or i >= 2) and draw(st.booleans()):
+                calls[-1].update({k: copy.deepcopy(v) for k, v in calls[draw(st.integers(0, i - 1))].items() if k != 'edit'})
     return dict(s=s, share=which == 'shared', pool=pool, shapes=shapes, defaults=defaults, calls=calls, one_decorator=draw(st.sampled_from([True, True, False])))
+
+
+def _cells(s, obj):
+    """(parent container object, index / key, spec node) of every leaf that sits directly in a list or a dict: the cells a caller can write in place"""
+    out = []
+
+    def walk(s, obj):
+        if s[0] == 'leaf':
+            return
+        for k, kid in (enumerate(s[1]) if s[0] in ('list', 'tuple') else [(k, v) for k, v in s[1]]):
+            if kid[0] != 'leaf':
+                walk(kid, obj[k])
+            elif s[0] != 'tuple':
+                out.append((obj, k, kid))
+    walk(s, obj)
+    return out
 
 
 def run_session(spec):
     from pyg_base import loop
-    s = spec['s']
+    s = copy.deepcopy(spec['s'])                                     # the CURRENT content: the spec plus the cells the harness writes between calls
+    pool = copy.deepcopy(spec['pool'])
+    sh0, df0 = spec['shapes'][0], spec['defaults'][0]
     x = build(s, {} if spec['share'] else None)                      # the operand and the companions are built ONCE ...
-    _, _, objs = _build_args(s, x, [dict(c, how='pos') for c in spec['pool']])
+    _, _, objs = _build_args(s, x, [dict(c, how='pos') for c in pool], sh0, df0)
     made = [_make_leaf_fn(sh, df, tag='leaf%i' % i) for i, (sh, df) in enumerate(zip(spec['shapes'], spec['defaults']))]
     if spec['one_decorator']:
         deco = loop(list, tuple, dict)                               # ... and ONE decorator object lifts both functions
@@ -479,24 +573,39 @@ def run_session(spec):
     fns_used, fn_kw, containers_used, prev = set(), set(), False, None
     for n, c in enumerate(spec['calls']):
         shape, defaults = spec['shapes'][c['fn']], spec['defaults'][c['fn']]
-        comps = [dict(spec['pool'][i], how=h) for i, h in zip(c['use'], c['hows'])]
+        comps = [dict(pool[i], how=h) for i, h in zip(c['use'], c['hows'])]
         pos = [objs[i] for i, h in zip(c['use'], c['hows']) if h == 'pos']
         kw = {names[j]: objs[i] for j, (i, h) in enumerate(zip(c['use'], c['hows'])) if h == 'kw'}
         first = _first_name(shape)
-        what = 'call %i of %i on the same objects: %s' % (n + 1, len(spec['calls']), _describe(made[c['fn']][1], first, c['first_kw'], x, pos, kw))
+        note = ''
+        if c.get('edit') and not spec['share']:
+            tgt, k, val = c['edit']
+            cells, where = _cells(s, x), 'the operand'
+            if tgt != 'x' and pool[tgt % len(pool)]['spec'][0] in ('list', 'dict', 'Dict') and _cells(pool[tgt % len(pool)]['spec'], objs[tgt % len(pool)]):
+                cells, where = _cells(pool[tgt % len(pool)]['spec'], objs[tgt % len(pool)]), 'companion %i' % (tgt % len(pool))
+            if cells:
+                parent, key, node = cells[k % len(cells)]
+                note = ' (before it the caller wrote %r over %r at [%r] of a %s inside %s)' % (val, node[1], key, type(parent).__name__, where)
+                parent[key] = val                                    # the object the library is called on ...
+                node[1] = val                                        # ... and the content the model is built from
+                if 'cell_written_in_place_between_calls' not in cls:
+                    cls.append('cell_written_in_place_between_calls')
+                if any(all(p[f] == c[f] for f in ('fn', 'use', 'hows', 'first_kw')) for p in spec['calls'][:n]) and 'cell_written_in_place_then_an_earlier_call_repeated' not in cls:
+                    cls.append('cell_written_in_place_then_an_earlier_call_repeated')
+        what = 'call %i of %i on the same objects%s: %s' % (n + 1, len(spec['calls']), note, _describe(made[c['fn']][1], first, c['first_kw'], x, pos, kw))
         if c['first_kw']:
             res = call(what, lambda: lifted[c['fn']](**{first: x}, **kw))
         else:
             res = call(what, lambda: lifted[c['fn']](x, *pos, **kw))
-        # every call is judged by the single-call model on the ORIGINAL content (fresh copies, a function object of the model's own)
+        # every call is judged by the single-call model on the ORIGINAL content plus the cells the harness wrote itself (fresh copies built from the spec, a function object of the model's own)
         x0 = build(s)
-        _, _, objs0 = _build_args(s, x0, [dict(k, how='pos') for k in spec['pool']])
+        _, _, objs0 = _build_args(s, x0, [dict(k, how='pos') for k in pool], sh0, df0)
         pos0 = [objs0[i] for i, h in zip(c['use'], c['hows']) if h == 'pos']
         kw0 = {names[j]: objs0[i] for j, (i, h) in enumerate(zip(c['use'], c['hows'])) if h == 'kw'}
-        exp = model_lift(_make_leaf_fn(shape, defaults, tag='leaf%i' % c['fn'])[0], x0, pos0, kw0)
+        exp = model_lift(_make_leaf_fn(shape, defaults, tag='leaf%i' % c['fn'], model=True)[0], x0, pos0, kw0)
         check(same_shape(res, exp), '%s = %s, leaf-wise model (on the original content of the arguments) says %s', what, res, exp)
         one, _ = _lift_classes(dict(s=s, comps=comps, first_kw=c['first_kw'], shape=shape, defaults=defaults, share=spec['share']), pos, kw)
-        cls += [l for l in one if not l.startswith(('depth=', 'ncomp=')) and ':' not in l and l not in cls]
+        cls += [l for l in one if not l.startswith(('depth=', 'ncomp=', 'own_')) and ':' not in l and l not in cls]
         fns_used.add(c['fn'])
         if c['first_kw']:
             fn_kw.add(c['fn'])
@@ -543,10 +652,20 @@ def _lib_case(draw):
                                      st.sampled_from(['  ', 'll', 'o ']), st.lists(st.sampled_from(_CHARS), min_size=k, max_size=k, unique=True), *[st.sampled_from(['  ', 'll', 'o ']) for _ in two[:1]]))
         spec['old_type'] = draw(st.sampled_from(['list', 'list', 'tuple']))
         spec['new'] = draw(st.sampled_from([None, '_', 'Z']))
+        # new=None is the documented default: passed explicitly, or (in half of these cases) left out
+        spec['omit'] = ['new'] if spec['new'] is None and draw(st.booleans()) else []
     if fn == 'split':
         spec['sep'] = draw(st.sampled_from([' ', ',', 'l', ' ', ',', 'l', ', ', 'l ', [' '], [' ', ','], ['l', ' '], [',', ';', ' ']] + [[',', ';', ' '][:k]] * 2 + [', ' for _ in two]))
         spec['sep_type'] = draw(st.sampled_from(['list', 'list', 'tuple']))
         spec['dedup'] = draw(st.booleans())
+        # the documented defaults sep=' ', dedup=False: passed explicitly (above), or left out - dedup alone, or both
+        omit = draw(st.sampled_from([0, 0, 0, 0, 1, 2]))
+        if omit:
+            spec['dedup'] = False
+            spec['omit'] = ['dedup']
+        if omit == 2:
+            spec['sep'] = ' '
+            spec['omit'] = ['sep', 'dedup']
     return spec
 
 
@@ -601,20 +720,21 @@ def run_lib(spec):
     x = build(s)
     F = getattr(pyg_base, fn)
     conv = lambda v, t: (list(v) if t == 'list' else tuple(v)) if isinstance(v, list) else v
+    omit = spec.get('omit', [])          # optional arguments the caller leaves out: the model fills in the documented default (new=None, sep=' ', dedup=False)
     if fn == 'replace':
         extra = dict(old=conv(spec['old'], spec.get('old_type', 'list')), new=spec['new'])
         g = lambda v, old, new: F(v, old, new)
-        what = 'replace(%s, %r, %r)' % (short(x, 150), extra['old'], extra['new'])
     elif fn == 'split':
         extra = dict(sep=conv(spec['sep'], spec.get('sep_type', 'list')), dedup=spec['dedup'])
         g = lambda v, sep, dedup: F(v, sep, dedup)
-        what = 'split(%s, %r, %r)' % (short(x, 150), extra['sep'], extra['dedup'])
     else:
         extra = {}
         g = F
-        what = '%s(%s)' % (fn, short(x, 150))
+    passed = [v for k, v in extra.items() if k not in omit]          # (the omitted ones are always the trailing ones)
+    what = '%s(%s%s)' % (fn, short(x, 150), ''.join(', %r' % (v,) for v in passed))
     fresh = lambda: {k: (copy.copy(v) if isinstance(v, list) else v) for k, v in extra.items()}
-    res = call(what, lambda: g(x, **extra))
+    top = (lambda: F(x, *passed)) if omit else (lambda: g(x, **extra))
+    res = call(what, top)
     # (1) lifting law: F(structure, further arguments) == structure with F applied to each leaf on its own, the further arguments matched / broadcast by the rule
     exp = model_lift(lambda v, **k: call('%s on leaf %r with %r' % (fn, v, k), g, v, **k), build(s), [], fresh())
     check(same_shape(res, exp), '%s = %s but applying it leaf by leaf gives %s', what, res, exp)
@@ -624,7 +744,7 @@ def run_lib(spec):
         exp2 = model_lift(py, build(s), [], fresh())
         check(same_or_unanchored(res, exp2), '%s = %s but the python string method at string leaves gives %s', what, res, exp2)
     # (3) the same call once more on the same objects (structure, old / sep list): judged by the original content
-    res2 = call(what + ' called a second time on the same objects', lambda: g(x, **extra))
+    res2 = call(what + ' called a second time on the same objects', top)
     check(same_shape(res2, exp), '%s called a second time on the same objects = %s, the first call gave %s', what, res2, exp)
     d = depth(s)
     lens_seen = _struct_facts(s)[0]
@@ -634,12 +754,16 @@ def run_lib(spec):
         cls.append('list_argument_as_long_as_a_sequence_of_the_structure')
     if isinstance(comp, str) and len(comp) == 2 and 2 in lens_seen:
         cls.append('string_argument_as_long_as_a_sequence_of_the_structure')
+    if omit:
+        cls.append('optional_arguments_left_out')
+    if fn == 'replace' and spec['new'] is None and not omit or fn == 'split' and not omit and (extra['sep'] == ' ' or extra['dedup'] is False):
+        cls.append('own_default_passed_explicitly')
     return dict(nt=d >= 2, cls=cls)
 
 
 # ----------------------------------------------------------------------------- zipper / lens
 
-_zarg = st.one_of(st.integers(0, 9).map(lambda v: ['scalar', v]), st.sampled_from(['s', 'str']).map(lambda v: ['scalar', v]), st.just(['scalar', None]),
+_zarg = st.one_of(st.integers(0, 9).map(lambda v: ['scalar', v]), st.sampled_from(['s', 'str', '', False]).map(lambda v: ['scalar', v]), st.just(['scalar', None]),
                   st.tuples(st.sampled_from(['list', 'tuple']), st.lists(st.integers(0, 9), max_size=4)).map(list),
                   st.tuples(st.sampled_from(['list', 'tuple']), st.lists(st.integers(0, 9), min_size=2, max_size=4)).map(list),
                   # the same sequences in other raw types, and ['same', i] = the very object that is argument i (a scalar if there is no such argument)
@@ -719,6 +843,10 @@ def run_zipper(spec):
         _zip_check('after %s: call %i on the same objects, zipper(%s)' % (what, j + 2, ', '.join(short(a, 40) for a in sub)), sub, [plain[i] for i in idx])
     cls = ['nargs=%i' % len(args)]
     kinds = [a[0] for a in spec['args']]
+    if any(k == 'scalar' and v is not None and not v for k, v in plain):
+        cls.append('falsy_scalar_argument')              # 0, '' or False
+        if any(k == 'scalar' and (v == '' or v is False) for k, v in plain):
+            cls.append('empty_string_or_False_scalar_argument')
     if 'range' in kinds or 'array' in kinds:
         cls.append('range_or_array_argument')
         if any(k in ('range', 'array') and l == 1 for k, l in zip(kinds, lengths)) and any(l is not None and l > 1 for l in lengths):
@@ -744,11 +872,12 @@ _al_el = st.one_of(_al_el_nolist, st.lists(_al_scalar.map(lambda v: ['leaf', v])
 
 @st.composite
 def _al_case(draw):
-    kind = draw(st.sampled_from(['none', 'scalar', 'str', 'list', 'tuple', 'tuple1list', 'range', 'dict', 'keys', 'values', 'zip', 'none']))
+    kind = draw(st.sampled_from(['none', 'scalar', 'str', 'list', 'tuple', 'tuple1list', 'range', 'dict', 'keys', 'values', 'zip', 'none', 'falsy']))
     els = draw(st.lists(_al_el, max_size=3))
     els_nolist = draw(st.lists(_al_el_nolist, max_size=3))
     # the option that is off by default: none=True keeps a None as an element ([None] / (None,)); it changes nothing for any other value
-    return dict(kind=kind, els=els, els_nolist=els_nolist, n=draw(st.integers(0, 3)), v=draw(st.integers(0, 5)), none=draw(st.sampled_from([None, None, False, True, True])))
+    # kind 'falsy': a falsy scalar that is not None ('', False, 0.0, 0) is one element like any other scalar, with every setting of none=
+    return dict(kind=kind, els=els, els_nolist=els_nolist, n=draw(st.integers(0, 3)), v=draw(st.integers(0, 5)), none=draw(st.sampled_from([None, None, False, True, True])), fv=draw(st.sampled_from(['', False, 0.0, 0])))
 
 
 def run_as_list(spec):
@@ -765,6 +894,8 @@ def run_as_list(spec):
             x, exp = zip(range(spec['n']), 'abc'), list(zip(range(spec['n']), 'abc'))
         elif kind == 'scalar':
             x, exp = spec['v'], [spec['v']]
+        elif kind == 'falsy':
+            x, exp = spec['fv'], [spec['fv']]
         elif kind == 'str':
             x, exp = 'text', ['text']
         elif kind == 'list':
@@ -960,30 +1091,39 @@ SUBS = [
         rule='nested list/tuple/dict/Dict/dictattr structures (depth <= 4) with 0-2 companions (scalar, same shape to full or partial depth, flat list of 0-5 scalars - matched where a sequence of that length sits, broadcast elsewhere, '
              'dict over other keys), each positional or by keyword, first argument positional or by keyword; the lifted function declares a and b with string defaults or with tuple / list / dict defaults as long as (keyed like) parts of the data, which a leaf must receive whole when the caller leaves them out; oracle: recursive leaf-map model, exact container types. '
              'Also: dict keys that are strings, small integers, integers beyond 2**53 or integers next to a float; same-shape companions whose numeric keys come as float / numpy.int64, or that ARE the operand object; one companion object passed for a and b; '
-             'one container object at two places of the structure; strings of length 2-3 as scalar companions; lifted functions of the shapes f(x, a=, b=), f(y, ...), f(x, *, a=, b=), f(x, *rest), f(x, **kw), f(*a, **kw) from one factory. '
+             'one container object at two places of the structure; strings of length 2-3 as scalar companions; lifted functions of the shapes f(x, a=, b=), f(y, ...), f(x, *, a=, b=), f(x, *rest), f(x, **kw), f(*a, **kw) from one factory, '
+             'or functools.partial(f, b=string / list / tuple as long as parts of the data) whose bound value every leaf must receive whole; the declared default of a / b passed explicitly (then matched like any companion); falsy scalar companions (0, "", False, 0.0), falsy elements in flat companions, dict keys "" and 0. '
              'non-trivial = depth >= 2 with a same-shape positional companion, or mixed container types',
         floor=0.2, class_floors={'unfilled_container_default_shaped_like_the_data': 0.08, 'companion_of_length_0_or_1_next_to_longer_sequences': 0.03, 'depth>=2_positional_same_shape': 0.08, 'first_by_keyword': 0.05, 'container_of_40+': 0.03, 'integer_dict_keys_with_same_shape_companion': 0.03,
                                  'string_companion_as_long_as_a_sequence': 0.01, 'companion_is_the_operand_object': 0.01, 'one_companion_object_passed_twice': 0.02, 'one_container_object_at_two_places': 0.035,
                                  'one_container_object_at_two_places_with_matched_companion': 0.014, 'companion_keys_in_another_numeric_type': 0.01, 'numeric_keys_beyond_2**53_or_int_next_to_float_with_same_shape_companion': 0.02,
-                                 'fn_with_varargs_or_keyword_only_and_companions': 0.05}),
+                                 'fn_with_varargs_or_keyword_only_and_companions': 0.05,
+                                 # classes 24, 26, 29 of the brief
+                                 'fn_is_a_partial_with_a_bound_keyword': 0.024, 'partial_binds_a_container_shaped_like_the_data': 0.007, 'own_default_passed_explicitly': 0.05,
+                                 'own_container_default_passed_explicitly_and_matched': 0.008, 'falsy_companion_or_companion_element': 0.04, 'falsy_element_of_a_matched_flat_companion': 0.006, 'falsy_dict_key': 0.035}),
     Sub('lift_session', lambda tier: _session_case(), run_session, quick=1200, thorough=8000,
         rule='the operand structure and a pool of 1-3 companions are built ONCE, two leaf functions (made by one factory, any two shapes) are lifted - by ONE loop(list, tuple, dict) decorator object in 2 of 3 cases - and 2-4 calls are made on '
-             'these same objects, their companion lists prefixes / extensions / permutations of one another, positional or by keyword; oracle: every call judged by the single-call leaf-map model on the original content of the arguments. '
+             'these same objects, their companion lists prefixes / extensions / permutations of one another, positional or by keyword; before a call the harness may write one leaf cell of the operand (or of a list / dict companion) in place, in half of these cases repeating an earlier call exactly; '
+             'oracle: every call judged by the single-call leaf-map model on the original content of the arguments plus the cells the harness wrote. '
              'non-trivial = some call takes a container companion',
         floor=0.2, class_floors={'one_decorator_object_two_functions': 0.13, 'one_decorator_object_two_functions_first_argument_by_two_names': 0.045, 'then_prefix': 0.1, 'then_extension': 0.12, 'then_permutation': 0.03, 'then_repeat': 0.16,
-                                 'one_container_object_at_two_places': 0.03, 'companion_is_the_operand_object': 0.012, 'fn_with_varargs_or_keyword_only_and_companions': 0.09, 'unfilled_container_default_shaped_like_the_data': 0.06}),
+                                 'one_container_object_at_two_places': 0.03, 'companion_is_the_operand_object': 0.012, 'fn_with_varargs_or_keyword_only_and_companions': 0.09, 'unfilled_container_default_shaped_like_the_data': 0.06,
+                                 # classes 24, 28, 29 of the brief
+                                 'cell_written_in_place_between_calls': 0.07, 'cell_written_in_place_then_an_earlier_call_repeated': 0.025, 'fn_is_a_partial_with_a_bound_keyword': 0.025, 'falsy_companion_or_companion_element': 0.045, 'falsy_dict_key': 0.045}),
     Sub('libfuncs', lambda tier: _lib_case(), run_lib, quick=3000, thorough=18000,
         rule='lower/upper/strip/proper/capitalize/f12/as_float/replace/split on nested structures with string, number and None leaves; oracle: result equals the structure '
              'with the function applied to every leaf on its own, and (where python has the method) the python string method at string leaves; replace / split also with `old` / `sep` given as a two-character string or a list / tuple of 1-3 characters, which is matched element by element where a list / tuple of that length sits '
-             '(the model passes it as a companion); every call is made twice on the same objects. non-trivial = depth >= 2',
-        floor=0.3, class_floors={'list_argument_as_long_as_a_sequence_of_the_structure': 0.008, 'string_argument_as_long_as_a_sequence_of_the_structure': 0.006}),
+             '(the model passes it as a companion); the optional arguments (new, dedup, sep and dedup) passed explicitly - also as their documented defaults - or left out; every call is made twice on the same objects. non-trivial = depth >= 2',
+        floor=0.3, class_floors={'list_argument_as_long_as_a_sequence_of_the_structure': 0.008, 'string_argument_as_long_as_a_sequence_of_the_structure': 0.006,
+                                 'optional_arguments_left_out': 0.013, 'own_default_passed_explicitly': 0.018}),      # class 26 of the brief
     Sub('zipper', lambda tier: _zip_case(), run_zipper, quick=3000, thorough=20000,
-        rule='0-4 arguments from scalars, strings, lists / tuples / ranges / 1-d numpy arrays of length 0-4, possibly one sequence object passed twice; in 2 of 5 cases 1-2 further calls on the same argument objects (permuted, cut to a prefix); '
+        rule='0-4 arguments from scalars (0, "" and False among them), strings, lists / tuples / ranges / 1-d numpy arrays of length 0-4, possibly one sequence object passed twice; in 2 of 5 cases 1-2 further calls on the same argument objects (permuted, cut to a prefix); '
              'oracle: zip after broadcasting scalars and length-1 sequences, ValueError iff two lengths differ and neither is 1, every call judged by the original content of the arguments; lens returns the common length. non-trivial = broadcasting, mismatch or empty',
-        floor=0.2, class_floors={'mismatch_raises': 0.04, 'range_or_array_argument': 0.15, 'range_or_array_of_length_1_broadcast': 0.015, 'one_sequence_object_passed_twice': 0.017, 'further_calls_on_the_same_objects': 0.09, 'further_calls_after_a_length_1_broadcast': 0.008}),
+        floor=0.2, class_floors={'mismatch_raises': 0.04, 'range_or_array_argument': 0.15, 'range_or_array_of_length_1_broadcast': 0.015, 'one_sequence_object_passed_twice': 0.017, 'further_calls_on_the_same_objects': 0.09, 'further_calls_after_a_length_1_broadcast': 0.008,
+                                 'falsy_scalar_argument': 0.08, 'empty_string_or_False_scalar_argument': 0.03}),      # class 29 of the brief
     Sub('as_list', lambda tier: _al_case(), run_as_list, quick=2000, thorough=10000,
-        rule='None, scalars, strings, lists, tuples, 1-tuples holding a list, ranges, zips, dicts, dict views, with the option none= left out / False / True; oracle: element preservation with exact result type and f(f(x)) == f(x)',
-        floor=0.3, class_floors={'None_with_none=True': 0.014, 'kind=zip': 0.027}),
+        rule='None, scalars (kind falsy: "", False, 0.0, 0), strings, lists, tuples, 1-tuples holding a list, ranges, zips, dicts, dict views, with the option none= left out / False / True; oracle: element preservation with exact result type and f(f(x)) == f(x)',
+        floor=0.3, class_floors={'None_with_none=True': 0.014, 'kind=zip': 0.027, 'kind=falsy': 0.025}),
     Sub('waiter', lambda tier: _waiter_case(), run_waiter, quick=600, thorough=5000,
         rule='nested structures holding up to 6 futures/coroutines mixed with plain values, a future possibly placed several times; a driver resolves the futures in a generated permutation; in half of the coroutine-free cases waiter is called '
              'a second time on the same (now completed) structure; oracle: same structure and container types with every awaitable replaced by its result. non-trivial = >= 2 awaitables resolved out of creation order',
